@@ -1,7 +1,7 @@
 (* C06 bridge: what the translator regenerated from _functions.py on this run (Gen.v) is the
    hand-written textbook model, for all arguments. *)
-From Coq Require Import QArith Qabs List Bool ZArith.
-Require Import SkV.C06.Model SkV.C06.Gen SkV.C06.Wrap SkV.C06.GenWrap.
+From Coq Require Import QArith Qabs List Bool ZArith String.
+Require Import SkV.C06.Model SkV.C06.Gen SkV.C06.Wrap SkV.C06.WrapSem SkV.C06.GenWrap.
 Import ListNotations.
 Open Scope Q_scope.
 
@@ -25,6 +25,117 @@ Proof. intros n. destruct n; reflexivity. Qed.
 (* the regenerated class table covers the 18 functions, each class wrapping the function whose
    signature was extracted for it *)
 Theorem gen_wrappers_cover :
-  length gen_wrappers = 18%nat /\
+  List.length gen_wrappers = 18%nat /\
   forallb (fun ws => String.eqb (w_func (fst ws)) (s_name (snd ws))) gen_wrappers = true.
 Proof. split; vm_compute; reflexivity. Qed.
+
+(* the rows of gen_struct / gen_defaults were read from the functions of these names *)
+Theorem gen_fname_eq : forall n, gen_fname n = fname n.
+Proof. intros n. destruct n; reflexivity. Qed.
+
+(* every class of the regenerated table is a well-formed wrapper: its __call__ accepts the extra
+   series if its function needs one, every attribute it reads was stored by the constructor, and
+   every constructor argument reaches the function under its own name *)
+Theorem gen_wrappers_all_ok :
+  forallb (fun ws => wrapper_ok (fst ws) (snd ws)) gen_wrappers = true.
+Proof. vm_compute. reflexivity. Qed.
+
+(* ... and every function is wrapped exactly once *)
+Theorem gen_wrappers_one_class_per_function :
+  forallb (fun n => Nat.eqb (List.length (filter (fun ws => String.eqb (s_name (snd ws)) (fname n))
+                                                 gen_wrappers)) 1) all_mnames = true.
+Proof. vm_compute. reflexivity. Qed.
+
+(* what a class computes: for every class of the table and every choice `user` of option values,
+   the class constructed with them and called with the series its function needs evaluates the
+   published formula of that function under exactly these options (options the formula does not
+   depend on are irrelevant).  gen_defaults are the regenerated defaults of the function: they
+   fill the options that are not forwarded - the theorem says there is no such option that
+   matters. *)
+Ltac class_row :=
+  let user := fresh "user" in
+  eexists; split; [vm_compute; reflexivity|]; intro user; destruct user;
+  vm_compute; reflexivity.
+
+Theorem gen_class_metric_eq : forall w s, In (w, s) gen_wrappers ->
+  exists n, mname_of (s_name s) = Some n /\
+    forall user, class_metric gen_defaults w s user = Some (textbook n user).
+Proof.
+  intros w s H. unfold gen_wrappers in H.
+  repeat (destruct H as [H|H]; [injection H as <- <-; class_row|]).
+  contradiction.
+Qed.
+
+(* a default-constructed class uses the defaults of its function *)
+Theorem gen_ctor_defaults_agree :
+  List.length gen_ctor_defaults = 18%nat /\
+  forallb (fun row => match mname_of (snd (fst row)) with
+                      | Some n => defaults_agree (gen_defaults n) (snd row)
+                      | None => false
+                      end) gen_ctor_defaults = true /\
+  map (fun row => (fst (fst row), snd (fst row))) gen_ctor_defaults =
+  map (fun ws => (w_class (fst ws), w_func (fst ws))) gen_wrappers /\
+  forallb (fun p => Nat.eqb (List.length (snd (fst p))) (List.length (w_ctor (fst (snd p)))))
+          (combine gen_ctor_defaults gen_wrappers) = true.
+Proof. repeat split; vm_compute; reflexivity. Qed.
+
+(* ---------------------------------------------------------------- consequences, in the form the
+   property states them *)
+
+Lemma in_gen_wrappers_ok w s : In (w, s) gen_wrappers -> wrapper_ok w s = true.
+Proof.
+  intro H. pose proof gen_wrappers_all_ok as A. rewrite forallb_forall in A.
+  exact (A (w, s) H).
+Qed.
+
+Theorem class_eq_function : forall w s, In (w, s) gen_wrappers ->
+  exists b, class_call w s (s_series s) = Calls (s_name s) b /\
+            same_bindings b (same_options w) = true.
+Proof. intros w s H. apply wrapper_ok_sound. apply in_gen_wrappers_ok. exact H. Qed.
+
+Theorem class_metric_is_textbook : forall w s, In (w, s) gen_wrappers ->
+  exists n, fname n = s_name s /\
+    forall user, class_metric gen_defaults w s user = Some (textbook n user).
+Proof.
+  intros w s H. destruct (gen_class_metric_eq w s H) as [n [Hn Hu]].
+  exists n. split; [apply mname_of_sound; exact Hn | exact Hu].
+Qed.
+
+(* the extra series: exactly the ones the function requires *)
+Theorem class_series_required : forall w s given, In (w, s) gen_wrappers ->
+  subset given (s_series s) && subset (s_series s) given = false -> class_call w s given = TypeErr.
+Proof.
+  intros w s given Hin H. apply in_gen_wrappers_ok in Hin. unfold wrapper_ok in Hin.
+  unfold class_call.
+  destruct (negb (w_call_kwargs w) && negb match given with [] => true | _ => false end);
+    [reflexivity|].
+  destruct (read_attrs (w_attrs w) (w_forwards w)) as [b|].
+  - destruct (negb (subset (map fst b) (s_opts s))); [reflexivity|].
+    destruct (subset given (s_series s)); simpl in *; [rewrite H; reflexivity | reflexivity].
+  - rewrite andb_false_r in Hin. discriminate.
+Qed.
+
+Theorem ctor_defaults_documented : forall cls f cd, In (cls, f, cd) gen_ctor_defaults ->
+  exists n, fname n = f /\ defaults_agree (documented_defaults n) cd = true.
+Proof.
+  intros cls f cd H. destruct gen_ctor_defaults_agree as [_ [A _]].
+  rewrite forallb_forall in A. specialize (A _ H). simpl in A.
+  destruct (mname_of f) as [n|] eqn:E; [|discriminate].
+  exists n. split; [apply mname_of_sound; exact E|]. rewrite <- gen_defaults_eq. exact A.
+Qed.
+
+Lemma in_all_mnames n : In n all_mnames.
+Proof. destruct n; simpl; tauto. Qed.
+
+Theorem every_function_has_a_class :
+  List.length gen_wrappers = 18%nat /\
+  forallb (fun ws => String.eqb (w_func (fst ws)) (s_name (snd ws))) gen_wrappers = true /\
+  forall n, exists w s, In (w, s) gen_wrappers /\ s_name s = fname n.
+Proof.
+  destruct gen_wrappers_cover as [L F]. split; [exact L | split; [exact F|]].
+  assert (forallb (fun n => existsb (fun ws => String.eqb (s_name (snd ws)) (fname n)) gen_wrappers)
+                  all_mnames = true) as A by (vm_compute; reflexivity).
+  rewrite forallb_forall in A. intro n. specialize (A n (in_all_mnames n)).
+  apply existsb_exists in A. destruct A as [[w s] [Hin He]].
+  exists w, s. split; [exact Hin | apply String.eqb_eq; exact He].
+Qed.
